@@ -138,6 +138,8 @@ func ParseFlags(params []string, args *Arguments) (*FlagsT, []string, error) {
 	)
 
 	for i = range params {
+		aliases := 0 // alias flags followed for this parameter
+
 	scanFlags:
 		switch {
 		case ignoreFlags:
@@ -148,6 +150,11 @@ func ParseFlags(params []string, args *Arguments) (*FlagsT, []string, error) {
 			case args.AllowAdditional && params[i] == "--":
 				ignoreFlags = true
 			case strings.HasPrefix(args.Flags[params[i]], "-"):
+				aliases++
+				if aliases > len(args.Flags) {
+					// every alias has been followed at least once: the table has a cycle
+					return nil, nil, fmt.Errorf("%s: flag aliases loop: `%s`", invalidParameters, params[i])
+				}
 				params[i] = args.Flags[params[i]]
 				goto scanFlags
 			case args.Flags[params[i]] == types.Boolean:
